@@ -109,7 +109,7 @@ fn schedule(same_pool: bool, env_ops: u8) {
 #[kani::unwind(4)]
 pub fn c39_schedule_same_pool() { schedule(true, 1); }
 
-// @vt prop=C39 tier=quick bound="2 threads, different pools: thread A's allocate with one complete allocate of thread B (another pool, any size) at A's commit point; arbitrary one-allocation pre-state; 4 MiB budget" outside="interference between A's individual counter loads; weak-memory effects" timeout=1800 mem=16 replay=none
+// @vt prop=C39 tier=quick bound="2 threads, different pools: thread A's allocate with one complete allocate of thread B (another pool, any size) at A's commit point; arbitrary one-allocation pre-state; 4 MiB budget" outside="interference between A's individual counter loads; weak-memory effects" timeout=1800 mem=16 replay=none manual=known_replays/c39_cross_pool_race.rs
 #[cfg(kani)]
 #[kani::proof]
 #[kani::stub(eyre::capture_handler, crate::common::stub_capture_handler)]
